@@ -29,7 +29,7 @@ CHECKS = {
         text="For every generated operation with variables, 5-10 argument scripts (minimal, everything supplied, random with explicit None/omitted/unset nested fields; input "
              "models built by alias and by Python field name) are passed to the real method. The parameter for each variable is learned by a probe call. The captured "
              "payload must equal the abstract value exactly (omitted absent, None as null), be accepted by spec coercion, and deliver the same resolver arguments as "
-             "the authored operation executed directly; omitting a required argument must raise TypeError before any request. A sixth of the cases rename a custom "
+             "the authored operation executed directly; omitting a required argument (non-null and undefaulted; the generator also writes defaults on non-null variables) must raise TypeError before any request. A sixth of the cases rename a custom "
              "scalar to Upload: calls carrying files must travel as multipart with null at every file position, one part per file with its own name, type and bytes "
              "(the reference server decodes the body and puts the file's token back before executing); the traced OpenTelemetry client is driven where the rotation says so.",
         note=GEN_NOTE, design="4/C03"),
@@ -118,7 +118,7 @@ CHECKS = {
         technique="runtime monitoring: decision-function oracle over the real get_data of the 4 bundled clients (7 variants) on the full status x body-class product, plus generated methods through MockTransport",
         text="Every (status code, body class) combination is fed to the real get_data of all bundled base clients and to a generated method; "
              "the outcome (exception type + carried attributes, or returned data) is compared with a decision function transcribed from the statement. "
-             "The finite factors are enumerated completely; body contents inside a class are sampled.",
+             "The finite factors are enumerated completely; body contents inside a class are sampled (error entries include members of unexpected shape: string / list extensions, string locations).",
         note="Trusted: httpx.Response as model of a server response; json module. Body classes are finite representatives of infinite sets.",
         design="4/C12",
     ),
@@ -127,7 +127,7 @@ CHECKS = {
         technique="runtime monitoring: trace checker (reference protocol state machine) over frames sent/yielded by the real execute_ws on every scripted frame sequence up to the bound; real websockets server on loopback",
         text="All server frame sequences up to length 4 (quick) / 5 (thorough) over the 10 frame kinds of the statement are fed through a scripted "
              "connection to the real execute_ws of the plain and OpenTelemetry clients (tracer absent/recording); sends, yields and terminal outcome "
-             "are compared with a reference state machine. The handshake is also run against a real websockets server on 127.0.0.1.",
+             "are compared with a reference state machine (extra frame classes: JSON non-objects, falsy data, error frames with an empty or absent payload). The handshake is also run against a real websockets server on 127.0.0.1.",
         note="Trusted: the scripted connection mirrors websockets' contract; a second connection_ack is treated as outside the statement.",
         design="4/C13",
     ),
@@ -136,7 +136,7 @@ CHECKS = {
         technique="runtime monitoring: builder expressions produced by reflection over the generated builder modules; captured document validated and executed by graphql-core (resolvers record received arguments), shape compared with the expression, and each expression rebuilt after unrelated operations in the same process (history-freedom as a pair of executions)",
         text="For seeded schemas generated with enable_custom_operations, 10-24 expression trees per schema (several top-level fields, sub-fields to depth 3, aliases, .on() "
              "for union/interface members, arguments incl. explicit None) are built from the generated field objects; each captured document must validate against the "
-             "schema (argument values include falsy ones; a returned type or union member without builder class is reported), have the expression's shape and GraphQL names, deliver the caller's argument values to the reference resolvers, omit None arguments, and be "
+             "schema (argument values include falsy ones; a returned type or union member without builder class is reported; operations that fail while being built are part of the history), have the expression's shape and GraphQL names, deliver the caller's argument values to the reference resolvers, omit None arguments, and be "
              "identical when rebuilt after the other expressions were built and sent.",
         note=GEN_NOTE + " The three listed defect mechanisms are switched on one at a time in separate cases so that the clean region is explored densely.",
         design="4/C14"),
@@ -190,7 +190,7 @@ CHECKS = {
         text="Each seeded schema is supplied as one SDL file, as 2-3 random partitions into .graphql/.graphqls/.gql files in nested directories, and through an introspection "
              "endpoint answered by graphql-core on the harness-built schema. Result modules must be textually identical, enums and client identical modulo class/import order, "
              "input models must agree on names, required-ness and defaults; the recorder checks the headers ($ENV resolved, dollar signs elsewhere literal) and the verify flag "
-             "actually sent, for both strategies. 25 introspection failure classes (statuses, non-JSON incl. invalid UTF-8, JSON scalars, malformed data) and 6 malformed "
+             "actually sent, for both strategies. 26 introspection failure classes (among them errors reported next to a complete-looking result) (statuses, non-JSON incl. invalid UTF-8, JSON scalars, malformed data) and 6 malformed "
              "urls must surface as IntrospectionError without creating the package.",
         note="Trusted: graphql-core's introspection of the reference schema stands for a conformant remote endpoint; TLS itself is not exercised (verify is observed at the call boundary).",
         design="4/C19"),
